@@ -154,6 +154,18 @@ for _nm, _props in (("act_top", ["C03", "C02", "C06", "C08", "C15"]), ("act_dq",
           label="bounded(token text <= 4 bytes quick / 6 thorough over all bytes; scratch buffer shape %d of 5: unallocated / empty / 7 bytes / one byte left / full)" % _sh,
           props=_props, cost=80, trusted=LEXTRUST, tiers=("quick", "thorough") if _sh in (0, 2, 4) else ("thorough",))
 
+FLEXC = dict(remove=["cfg_yy_create_buffer", "cfg_yypush_buffer_state", "cfg_yypop_buffer_state"], carriers=["carriers/flex_buffers.c"])
+HLPTRUST = LEXTRUST + ["flex buffer stack: create/push/pop are a stack (carriers/flex_buffers.c)", "fopen/fclose/strerror: assumed contracts with a ghost open-set"]
+U("lex_scan_end", tu="lexer", harness="harness/lex_hlp.c", entry="h_scan_end", func="cfg_scan_fp_end", cbmc=unw(8) + NOOOM + LEAK, label="proof (loop-free; every context, 5 scratch shapes)",
+  props=["C08", "C07", "C13", "C02"], cost=10, trusted=HLPTRUST, **FLEXC)
+U("lex_scan_begin", tu="lexer", harness="harness/lex_hlp.c", entry="h_scan_begin", func="cfg_scan_fp_begin", cbmc=unw(8) + NOOOM, label="proof (loop-free)",
+  props=["C08", "C13", "C02"], cost=5, trusted=HLPTRUST, **FLEXC)
+U("lex_include", tu="lexer", harness="harness/lex_hlp.c", entry="h_lexer_include", func="cfg_lexer_include", cbmc=unw(8) + NOOOM + LEAK,
+  label="proof (loop-free; every stack depth 0..10, search path present or not, resolution / open failing or not)",
+  props=["C13", "C17", "C07", "C06", "C08", "C02"], cost=10, trusted=HLPTRUST, **FLEXC)
+U("lex_eof", tu="lexer", harness="harness/lex_hlp.c", entry="h_eof_action", func="<<EOF>> rule actions", cbmc=unw(8) + NOOOM + LEAK,
+  label="proof (loop-free; every context, every stack depth, own / foreign handle)", props=["C13", "C08", "C07", "C06", "C03", "C02"], cost=10, trusted=HLPTRUST, **FLEXC)
+
 # ------------------------------------------------------------------ per-property text for MANIFEST / evidence
 HOOK_COMMITS = ["b37b503"]
 NOT_APPLICABLE = {}
